@@ -284,3 +284,170 @@ package evaluator
 //@   requires right != nil && node != nil
 //@   ensures result != nil
 //@   modifies nothing
+
+// ---- built-in functions (the dispatch table evaluator.functions registers each under its receiver type) ----
+//@ func strLenFunc
+//@   requires receiver != nil && istype(receiver, *object.Str)
+//@   ensures result1 == nil ==> result0 != nil
+//@   modifies nothing
+//@ func strSplitFunc
+//@   requires receiver != nil && istype(receiver, *object.Str)
+//@   ensures result1 == nil ==> result0 != nil
+//@   modifies nothing
+//@ func strRawFunc
+//@   requires receiver != nil && istype(receiver, *object.Str)
+//@   ensures result1 == nil ==> result0 != nil
+//@   modifies nothing
+//@ func strTrimFunc
+//@   requires receiver != nil && istype(receiver, *object.Str)
+//@   ensures result1 == nil ==> result0 != nil
+//@   modifies nothing
+//@ func strTrimRightFunc
+//@   requires receiver != nil && istype(receiver, *object.Str)
+//@   ensures result1 == nil ==> result0 != nil
+//@   modifies nothing
+//@ func strTrimLeftFunc
+//@   requires receiver != nil && istype(receiver, *object.Str)
+//@   ensures result1 == nil ==> result0 != nil
+//@   modifies nothing
+//@ func strUpperFunc
+//@   requires receiver != nil && istype(receiver, *object.Str)
+//@   ensures result1 == nil ==> result0 != nil
+//@   modifies nothing
+//@ func strLowerFunc
+//@   requires receiver != nil && istype(receiver, *object.Str)
+//@   ensures result1 == nil ==> result0 != nil
+//@   modifies nothing
+//@ func strCapitalizeFunc
+//@   requires receiver != nil && istype(receiver, *object.Str)
+//@   ensures result1 == nil ==> result0 != nil
+//@   modifies nothing
+//@ func strReverseFunc
+//@   requires receiver != nil && istype(receiver, *object.Str)
+//@   ensures result1 == nil ==> result0 != nil
+//@   modifies nothing
+//@   loop 0: invariant i >= 0 && n == len(runes) && fresh(runes)
+//@ func strContainsFunc
+//@   requires receiver != nil && istype(receiver, *object.Str)
+//@   ensures result1 == nil ==> result0 != nil
+//@   modifies nothing
+//@ func strTruncateFunc
+//@   requires receiver != nil && istype(receiver, *object.Str)
+//@   ensures result1 == nil ==> result0 != nil
+//@   modifies nothing
+//@ func strDecimalFunc
+//@   requires receiver != nil && istype(receiver, *object.Str)
+//@   ensures result1 == nil ==> result0 != nil
+//@   modifies nothing
+//@ func strAtFunc
+//@   requires receiver != nil && istype(receiver, *object.Str)
+//@   ensures result1 == nil ==> result0 != nil
+//@   modifies nothing
+//@ func strFirstFunc
+//@   requires receiver != nil && istype(receiver, *object.Str)
+//@   ensures result1 == nil ==> result0 != nil
+//@   modifies nothing
+//@ func strLastFunc
+//@   requires receiver != nil && istype(receiver, *object.Str)
+//@   ensures result1 == nil ==> result0 != nil
+//@   modifies nothing
+//@ func strRepeatFunc
+//@   requires receiver != nil && istype(receiver, *object.Str)
+//@   ensures result1 == nil ==> result0 != nil
+//@   modifies nothing
+//@ func arrayLenFunc
+//@   requires receiver != nil && istype(receiver, *object.Array)
+//@   ensures result1 == nil ==> result0 != nil
+//@   modifies nothing
+//@ func arrayJoinFunc
+//@   requires receiver != nil && istype(receiver, *object.Array)
+//@   ensures result1 == nil ==> result0 != nil
+//@   modifies nothing
+//@ func arrayRandFunc
+//@   requires receiver != nil && istype(receiver, *object.Array)
+//@   ensures result1 == nil ==> result0 != nil
+//@   modifies nothing
+//@ func arrayReverseFunc
+//@   requires receiver != nil && istype(receiver, *object.Array)
+//@   ensures result1 == nil ==> result0 != nil
+//@   modifies nothing
+//@   loop 0: invariant fresh(reversed) && len(reversed) == length && length == len(elems) && forall(j, 0, rangeindex+1, reversed[length-j-1] != nil)
+//@ func arraySliceFunc
+//@   requires receiver != nil && istype(receiver, *object.Array)
+//@   ensures result1 == nil ==> result0 != nil
+//@   modifies nothing
+//@ func arrayShuffleFunc
+//@   requires receiver != nil && istype(receiver, *object.Array)
+//@   ensures result1 == nil ==> result0 != nil
+//@   modifies nothing
+//@   loop 0: invariant i < length && length == len(shuffled) && fresh(shuffled) && forall(k, 0, length, shuffled[k] != nil)
+//@ func arrayContainsFunc
+//@   requires receiver != nil && istype(receiver, *object.Array)
+//@   ensures result1 == nil ==> result0 != nil
+//@   modifies nothing
+//@ func arrayAppendFunc
+//@   requires receiver != nil && istype(receiver, *object.Array)
+//@   ensures result1 == nil ==> result0 != nil
+//@   modifies nothing
+//@   loop 0: invariant fresh(newElems) && len(newElems) == len(elems)+len(args) && forall(k, 0, len(elems)+rangeindex+1, newElems[k] != nil)
+//@ func arrayPrependFunc
+//@   requires receiver != nil && istype(receiver, *object.Array)
+//@   ensures result1 == nil ==> result0 != nil
+//@   modifies nothing
+//@   loop 0: invariant fresh(newElems) && argsLen == len(args) && len(newElems) == len(elems)+argsLen && forall(k, 0, argsLen+rangeindex+1, newElems[k] != nil)
+//@ func floatIntFunc
+//@   requires receiver != nil && istype(receiver, *object.Float)
+//@   ensures result1 == nil ==> result0 != nil
+//@   modifies nothing
+//@ func floatStrFunc
+//@   requires receiver != nil && istype(receiver, *object.Float)
+//@   ensures result1 == nil ==> result0 != nil
+//@   modifies nothing
+//@ func floatAbsFunc
+//@   requires receiver != nil && istype(receiver, *object.Float)
+//@   ensures result1 == nil ==> result0 != nil
+//@   modifies nothing
+//@ func floatCeilFunc
+//@   requires receiver != nil && istype(receiver, *object.Float)
+//@   ensures result1 == nil ==> result0 != nil
+//@   modifies nothing
+//@ func floatFloorFunc
+//@   requires receiver != nil && istype(receiver, *object.Float)
+//@   ensures result1 == nil ==> result0 != nil
+//@   modifies nothing
+//@ func floatRoundFunc
+//@   requires receiver != nil && istype(receiver, *object.Float)
+//@   ensures result1 == nil ==> result0 != nil
+//@   modifies nothing
+//@ func intFloatFunc
+//@   requires receiver != nil && istype(receiver, *object.Int)
+//@   ensures result1 == nil ==> result0 != nil
+//@   modifies nothing
+//@ func intAbsFunc
+//@   requires receiver != nil && istype(receiver, *object.Int)
+//@   ensures result1 == nil ==> result0 != nil
+//@   modifies nothing
+//@ func intStrFunc
+//@   requires receiver != nil && istype(receiver, *object.Int)
+//@   ensures result1 == nil ==> result0 != nil
+//@   modifies nothing
+//@ func intLenFunc
+//@   requires receiver != nil && istype(receiver, *object.Int)
+//@   ensures result1 == nil ==> result0 != nil
+//@   modifies nothing
+//@ func intDecimalFunc
+//@   requires receiver != nil && istype(receiver, *object.Int)
+//@   ensures result1 == nil ==> result0 != nil
+//@   modifies nothing
+//@ func boolBinaryFunc
+//@   requires receiver != nil && istype(receiver, *object.Bool)
+//@   ensures result1 == nil ==> result0 != nil
+//@   modifies nothing
+//@ func boolThenFunc
+//@   requires receiver != nil && istype(receiver, *object.Bool)
+//@   ensures result1 == nil ==> result0 != nil
+//@   modifies nothing
+//@ func addDecimals
+//@   requires receiver != nil && (objType == object.STR_OBJ ==> istype(receiver, *object.Str)) && (objType == object.INT_OBJ ==> istype(receiver, *object.Int))
+//@   ensures result1 == nil ==> result0 != nil
+//@   modifies nothing
